@@ -17,5 +17,9 @@ echo "## demo without the change" >> $DEST/confirm.txt
 git apply $OUT/patch.diff
 cat $DEST/confirm.txt
 echo "## checks against the change (applied to a scratch worktree of /repo's HEAD, tools/scratch_try.sh)" > $DEST/checks.txt
-SCRATCH_WT=/tmp/wt/S$P HEAD=6 /verif/tools/scratch_try.sh $OUT/patch.diff all | sed 's/^== //' >> $DEST/checks.txt
+# the checks run from a snapshot of the code taken now (so that /verif can be edited while they run)
+export VCODE=/tmp/vsnap_$P; rm -rf $VCODE; mkdir -p $VCODE
+rsync -a --exclude .git --exclude .cache --exclude seeded --exclude benign --exclude evidence --exclude reports /verif/ $VCODE/; ln -s /verif/.cache $VCODE/.cache
+SCRATCH_WT=/tmp/wt/S$P HEAD=6 $VCODE/tools/scratch_try.sh $OUT/patch.diff all | sed 's/^== //' >> $DEST/checks.txt
 cat $DEST/checks.txt
+rm -rf $VCODE
